@@ -26,7 +26,7 @@ pub fn run(cfg: &RunCfg) -> Ctx {
     let mut all = Ctx::new();
     let dir = format!("{}/c11-gen-{}", std::env::var("VERIF_SCRATCH").unwrap_or_else(|_| "/verif/target".into()), std::process::id());
     let d2 = dir.clone();
-    all.merge(par_cases(cfg, "tokens", cfg.n(1000, 16 * 800), || (), move |_, rng, ctx, i| case(rng, ctx, i, &d2)));
+    all.merge(par_cases(cfg, "tokens", cfg.n(1000, 16 * 4000), || (), move |_, rng, ctx, i| case(rng, ctx, i, &d2)));
     let _ = std::fs::remove_dir_all(&dir);
     for k in ["pkg.absent", "pkg.single", "pkg.nested", "opt.no_package_emission", "opt.default_stubs", "opt.arc_self", "opt.client_only", "opt.server_only", "shape.unary", "shape.server_streaming", "shape.client_streaming", "shape.streaming", "name.non_camel_service", "name.keyword_method", "observed.methods_checked"] {
         all.floor(k, 5);
